@@ -747,12 +747,17 @@ def _propagate_callable_temps(root):
     for n in ast.walk(root):
         if isinstance(n, ast.Name) and isinstance(n.ctx, (ast.Store, ast.Del)):
             stores[n.id] = stores.get(n.id, 0) + 1
+    called = {c.func.id for c in ast.walk(root) if isinstance(c, ast.Call) and isinstance(c.func, ast.Name)}
     for n in ast.walk(root):
-        if isinstance(n, ast.Assign) and len(n.targets) == 1 and isinstance(n.targets[0], ast.Name) and _is_inliner_temp(n.targets[0].id) \
-                and stores.get(n.targets[0].id) == 1:
+        if isinstance(n, ast.Assign) and len(n.targets) == 1 and isinstance(n.targets[0], ast.Name) and stores.get(n.targets[0].id) == 1 \
+                and (_is_inliner_temp(n.targets[0].id) or n.targets[0].id in called):
             v = n.value
-            if isinstance(v, ast.Lambda) or (isinstance(v, ast.Call) and ast.unparse(v.func) in ("attrgetter", "operator.attrgetter")
-                                             and len(v.args) == 1 and isinstance(v.args[0], ast.Constant)):
+            # (a user's local qualifies as well when it is bound once to a pure getter: `target_of = attrgetter("a" if ext else "b")`)
+            if isinstance(v, ast.Lambda) and _is_inliner_temp(n.targets[0].id):
+                vals[n.targets[0].id] = v
+            elif isinstance(v, ast.Call) and ast.unparse(v.func) in ("attrgetter", "operator.attrgetter") and len(v.args) == 1 and (
+                    isinstance(v.args[0], ast.Constant) or (isinstance(v.args[0], ast.IfExp) and isinstance(v.args[0].test, (ast.Name, ast.Attribute))
+                                                            and all(isinstance(x, ast.Constant) for x in (v.args[0].body, v.args[0].orelse)))):
                 vals[n.targets[0].id] = v
     if not vals:
         return root
